@@ -681,7 +681,11 @@ impl NodeRecordStore {
         // Store the new record to the cache
         self.records_cache.push_back(key.clone(), r.clone());
 
-        self.prune_records_if_needed(key)?;
+        if let Err(err) = self.prune_records_if_needed(key) {
+            // a refused record must neither be served from, nor short-cut by, the read cache
+            let _ = self.records_cache.remove(key);
+            return Err(err);
+        }
 
         let filename = Self::generate_filename(key);
         let file_path = self.config.storage_dir.join(&filename);
